@@ -40,6 +40,19 @@ pub fn scenarios_for(prop: &str, quick: bool) -> Vec<Scenario> {
 
 /// Confirm a violation by re-executing its history from scratch with the memos off.
 pub fn confirm(v: &Violation, props: &[Prop]) -> bool {
+    if v.replay["livelock"].as_bool() == Some(true) {
+        // the cycle was established on the explored state graph (keys of really executed states);
+        // confirm that the entry history replays without divergence
+        let sc: Scenario = match serde_json::from_value(v.replay["scenario"].clone()) {
+            Ok(s) => s,
+            Err(_) => return false,
+        };
+        let history: Vec<Ev> = match serde_json::from_value(v.replay["history"].clone()) {
+            Ok(h) => h,
+            Err(_) => return false,
+        };
+        return crate::sim::explore::replay_plain(&std::rc::Rc::new(sc), &history).is_ok();
+    }
     let sc: Scenario = match serde_json::from_value(v.replay["scenario"].clone()) {
         Ok(s) => s,
         Err(_) => return false,
@@ -78,6 +91,8 @@ pub fn absorb(report: &mut Report, r: &ExploreResult, props: &[Prop], per_scenar
         "capped": r.capped,
         "timed_out": r.timed_out,
         "determinism_audits": r.audit_runs,
+        "livelock_components": r.livelock_sccs,
+        "cycles_with_fault_free_exit": r.cyclic_sccs_with_exit,
         "violation_signatures": r.violations.iter().map(|v| v.signature()).collect::<Vec<_>>(),
     }));
     for v in &r.violations {
@@ -115,6 +130,7 @@ pub fn check_sim(prop: &str, tier: &str) -> i32 {
                 deadline: Some(deadline),
                 audit_every: 500,
                 collect_journals: false,
+                check_livelock: prop == "C02",
             },
         );
         if r.outcomes.len() <= 1 && r.max_enabled <= 1 {
